@@ -2,6 +2,8 @@ package main
 
 // One blank import per engine package; each registers its checks in init().
 import (
+	_ "verif/harness/inproc"
+	_ "verif/harness/pdlab"
 	_ "verif/harness/placelab"
 	_ "verif/harness/procluster"
 	_ "verif/harness/smlab"
